@@ -259,13 +259,41 @@ def rule_pair_tf(ctx: Ctx) -> None:
     txt = [ws(norm(n)) for n in p.nodes(g) if isinstance(n, (ast.Assign, ast.Expr, ast.For))]
     cb = [h for h in p.funcs.values() if h.parent is g and h.kind == 'nested']
     ctxt = ' '.join(ws(norm(st)) for h in cb for st in h.body)
-    ok = 'flatten(self._tensors)' in ' '.join(txt) and 'unflatten(future.value(),self._tensors)' in ctxt \
-        and re.search(r'for(\w+),(\w+)inzip\((\w+),self\._futures\):\2\.set_result\(\1\)', ctxt) is not None
-    ctx.check(ok, 'PAIR-TF', g, 'flatten(tensors) / unflatten(value, tensors) / zip(results, futures) in order', 'resolve',
+    def res(h: Func, e: ast.expr, depth: int = 0) -> ast.expr:
+        """e with single-definition locals of h replaced by their definitions."""
+        while isinstance(e, ast.Name) and depth < 4:
+            ds = p.local_defs(h, e.id)
+            if len(ds) != 1:
+                break
+            e = ds[0]
+            depth += 1
+        return e
+    ok = 'flatten(self._tensors)' in ' '.join(txt)
+    okz = False
+    for h in cb:
+        prm = h.params[0] if h.params else None
+        for lp in [n for n in p.nodes(h) if isinstance(n, ast.For) and isinstance(n.target, ast.Tuple) and len(n.target.elts) == 2]:
+            it = lp.iter
+            if not (isinstance(it, ast.Call) and norm(it.func) == 'zip' and len(it.args) == 2 and ws(norm(it.args[1])) == 'self._futures'):
+                continue
+            tv, fv = norm(lp.target.elts[0]), norm(lp.target.elts[1])
+            sets = [c for st in lp.body for c in ast.walk(st) if isinstance(c, ast.Call) and isinstance(c.func, ast.Attribute) and c.func.attr == 'set_result']
+            paired = len(sets) == 1 and norm(sets[0].func.value) == fv and len(sets[0].args) == 1 and norm(sets[0].args[0]) == tv and not flow.guards(p, h, sets[0])
+            src = res(h, it.args[0])
+            unfl = isinstance(src, ast.Call) and norm(src.func).split('.')[-1] in ('unflatten', '_unflatten_dense_tensors') and len(src.args) == 2 \
+                and ws(norm(src.args[1])) == 'self._tensors' and ws(norm(res(h, src.args[0]))) == f'{prm}.value()'
+            if paired:
+                ok = ok and True
+                okz = unfl
+                break
+        else:
+            continue
+        break
+    else:
+        ok = False
+    ctx.check(ok and any(True for _ in cb), 'PAIR-TF', g, 'flatten(tensors) / zip(results, futures) resolved pairwise in order', 'resolve',
               'the bucket does not resolve future i with the i-th slice of the reduced flat tensor (flatten / unflatten / zip over _tensors and _futures)', g.node)
-    m = re.search(r'(\w+)=unflatten\(', ctxt)
-    z = re.search(r'inzip\((\w+),self\._futures\)', ctxt)
-    ctx.check(bool(m and z and m.group(1) == z.group(1)), 'PAIR-TF', g, 'the zipped list is the unflattened result', 'zip source', 'the futures are resolved from something else than the unflattened result', g.node)
+    ctx.check(okz, 'PAIR-TF', g, 'the zipped list is unflatten(value, self._tensors)', 'zip source', 'the futures are resolved from something else than the unflattened result', g.node)
     # communicated flag: raise when already communicated, set before communicating
     raises = [n for n in p.nodes(g) if isinstance(n, ast.Raise)]
     okr = any(('self.communicated()', True, 'if') in atoms_of(p, g, r) or ('self._communicated', True, 'if') in atoms_of(p, g, r) for r in raises)
